@@ -145,7 +145,7 @@ def run(ctx):
     fs = forms()
     lims = limit_grid(fs)
     K = dict(Bnd=M.BND, Forms=frozenset(fs), Preambles=frozenset({()}), MaxChunk=2 if ctx.tier == "quick" else 3,
-             Limits=frozenset(lims), HoldFix=True, OpenFix=OPENFIX)
+             Limits=frozenset(lims), HoldFix=True, OpenFix=OPENFIX, PreFix=True)
     ctx.bounds = {"forms": len(fs), "limit_settings": len(lims), "MaxChunk": K["MaxChunk"]}
     ctx.rule = ("every (form, limits) scenario of Multipart.tla (limits at the exact totals -1/0/+1) on parse_stream and "
                 "parse_async_stream under byte-level chunkings, 324/325 parts on the form accessors, megabyte parts with a leading "
